@@ -165,6 +165,46 @@ func RunStreamArgs(seed int64) (res Result) {
 			add(fmt.Sprintf("RestoreChacha20PRG(len %d): err=%v", l, err))
 		}
 	}
+	// large reads (whole buffers of thousands of blocks, not multiples of 64), then Store / Restore: the stream and the counter
+	rng := rand.New(rand.NewSource(seed))
+	key := make([]byte, 32)
+	rng.Read(key)
+	nonce := make([]byte, 12)
+	g, err := random.NewChacha20PRG(key, nil)
+	if err != nil {
+		add("NewChacha20PRG: " + err.Error())
+		return
+	}
+	pos := uint64(0)
+	for _, k := range []int{1000, 4096, 65536, 100001, 7, 64, 300000 + rng.Intn(1000)} {
+		buf := make([]byte, k)
+		for i := range buf {
+			buf[i] = 0xA5 // a dirty buffer: Read must overwrite, not xor into it
+		}
+		g.Read(buf)
+		if !bytes.Equal(buf, ref.ChaChaStream(key, nonce, pos, k)) {
+			res.Violations = append(res.Violations, Violation{"C14", "KeystreamRFC8439", fmt.Sprintf("Read(%d) at offset %d is not the keystream", k, pos)})
+			return
+		}
+		pos += uint64(k)
+		g2, err := random.RestoreChacha20PRG(g.Store())
+		if err != nil {
+			add("Restore: " + err.Error())
+			return
+		}
+		a, b := make([]byte, 150), make([]byte, 150)
+		g2.Read(a)
+		if !bytes.Equal(a, ref.ChaChaStream(key, nonce, pos, 150)) {
+			res.Violations = append(res.Violations, Violation{"C14", "RestoreResumes", fmt.Sprintf("a generator restored after %d output bytes (last read %d) does not continue the stream", pos, k)})
+			return
+		}
+		g.Read(b)
+		pos += 150
+		if !bytes.Equal(a, b) {
+			res.Violations = append(res.Violations, Violation{"C14", "RestoreResumes", fmt.Sprintf("original and restored generator disagree after %d bytes", pos)})
+			return
+		}
+	}
 	return
 }
 
